@@ -368,6 +368,8 @@ def _judge(case, ctx, tr=None):
     ms = _times(n)
     if tr is None:
         tr = gen.make_track([(p[0], p[1], 0.5 * i - 1.0) for i, p in enumerate(pts)], ms)
+        if (n + int(tol * 977)) % 4 == 2:
+            tr, _how = gen.derive(tr, (pts, tol, mode))
     before = _snapshot(tr)
     src_obs = [tr.getObs(i) for i in range(n)]
     index_of = {t: i for i, t in enumerate(before["t"])}
